@@ -438,4 +438,288 @@ theorem standard_FPR_eq_model (ref est : Pattern.Pats) (tol : Rat) :
               | ok v => by_cases hv : v < tol <;> simp [hv]
           · simp [hlen]
 
+/-! ## occurrence_FPR (the sparse 3-D array, `rel_idx`, `np.ix_`) -/
+
+theorem fillOpt_raw {α β α' β' : Type} (fa : α → α') (fb : β → β') (xs : List α) (ys : List β)
+    (g : α' → β' → Py (Option (Rat × Rat))) (h : α → β → Py (Option (Rat × Rat)))
+    (hh : ∀ a b, g (fa a) (fb b) = h a b) :
+    fillOpt (xs.map fa) (ys.map fb) g
+      = (xs.mapM fun x => ys.mapM fun y => h x y).map fun d => (⟨xs.length, ys.length, d⟩, relIdx d) := by
+  unfold fillOpt
+  rw [mapM_map_congr fa _ (fun x => ys.mapM fun y => h x y) xs
+    (fun a _ => mapM_map_congr fb _ _ ys (fun b _ => hh a b))]
+  cases (xs.mapM fun x => ys.mapM fun y => h x y) <;> simp [bind, Except.bind, pure, Except.pure, Except.map]
+
+theorem occ_cell_eq_model (thres : Rat) (m : String) (p q : Pattern.Pat)
+    (K : Mat → Rat → Py (Option (Rat × Rat)))
+    (hK : ∀ s mx, K ⟨p.length, q.length, s⟩ mx = if thres ≤ mx then do
+        let a ← colMaxMean q.length s
+        let b ← rowMaxMean s
+        pure (some (a, b)) else pure none) :
+    (do let s ← Gen.pattern._compute_score_matrix (rawPat p) (rawPat q) m
+        let mx ← npMaxMat s
+        K s mx) = occCell thres m p q := by
+  rw [compute_score_matrix_eq_model]
+  unfold occCell asMat
+  cases scoreMatrix p q m with
+  | error e => rfl
+  | ok s =>
+    simp only [Except.map, bind, Except.bind, npMaxMat]
+    cases maxL s.flatten with
+    | error e => rfl
+    | ok mx => simp only [hK]; rfl
+
+theorem mapM_bind_pure {α β γ : Type} (f : α → Py β) (g : β → γ) (l : List α) :
+    (l.mapM fun a => do let c ← f a; pure (g c)) = (do let r ← l.mapM f; pure (r.map g)) := by
+  induction l with
+  | nil => rfl
+  | cons x xs ih =>
+    simp only [List.mapM_cons, ih]
+    cases f x with
+    | error e => rfl
+    | ok v => cases List.mapM f xs <;> rfl
+
+theorem getCell_map (O : List (List (Option (Rat × Rat)))) (g : Rat × Rat → Rat) (i j : Nat) :
+    getCell (O.map fun r => r.map fun c => g (c.getD (0, 0))) i j = (do let c ← lookup O i j; pure (g c)) := by
+  unfold getCell lookup
+  simp only [List.getElem?_map]
+  cases O[i]? with
+  | none => rfl
+  | some row =>
+    simp only [Option.map_some, List.getElem?_map]
+    cases row[j]? <;> rfl
+
+/-- the gathered cells, before a plane is chosen -/
+def gathered (O : List (List (Option (Rat × Rat)))) (rel : List (Nat × Nat)) : Py (List (List (Rat × Rat))) :=
+  rel.mapM fun a => rel.mapM fun b => lookup O a.1 b.2
+
+theorem ix_plane (r c : Nat) (O : List (List (Option (Rat × Rat)))) (g : Rat × Rat → Rat) (rel : List (Nat × Nat)) :
+    ix ⟨r, c, O.map fun r => r.map fun c => g (c.getD (0, 0))⟩ (relCol0 rel) (relCol1 rel)
+      = (do let L ← gathered O rel; pure ⟨rel.length, rel.length, L.map fun r => r.map g⟩) := by
+  unfold ix relCol0 relCol1 gathered
+  rw [mapM_map_congr (fun a : Nat × Nat => a.1) _
+    (fun a => do let r ← rel.mapM (fun b => lookup O a.1 b.2); pure (r.map g)) rel
+    (fun a _ => by
+      rw [mapM_map_congr (fun b : Nat × Nat => b.2) _ (fun b => do let c ← lookup O a.1 b.2; pure (g c)) rel
+        (fun b _ => getCell_map O g a.1 b.2)]
+      exact mapM_bind_pure _ g rel)]
+  rw [mapM_bind_pure (fun a => rel.mapM fun b => lookup O a.1 b.2) (fun r => r.map g) rel]
+  simp only [List.length_map]
+  cases (rel.mapM fun a => rel.mapM fun b => lookup O a.1 b.2) <;> rfl
+
+theorem model_gather (O : List (List (Option (Rat × Rat)))) (g : Rat × Rat → Rat) (rel : List (Nat × Nat)) :
+    (rel.mapM fun a => rel.mapM fun b => do let c ← lookup O a.1 b.2; pure (g c))
+      = (do let L ← gathered O rel; pure (L.map fun r => r.map g)) := by
+  unfold gathered
+  rw [← mapM_bind_pure (fun a => rel.mapM fun b => lookup O a.1 b.2) (fun r => r.map g) rel]
+  congr 1
+  funext a
+  exact mapM_bind_pure _ g rel
+
+theorem occurrence_FPR_eq_model (ref est : Pattern.Pats) (thres : Rat) (m : String) :
+    Gen.pattern.occurrence_FPR (raw ref) (raw est) thres m = occurrenceFPR ref est thres m := by
+  unfold Gen.pattern.occurrence_FPR occurrenceFPR
+  simp only [validate_raw, n_onset_raw]
+  rcases validate_cases ref est with hv | hv <;> rw [hv]
+  swap
+  · rfl
+  simp only [bind, Except.bind, pure, Except.pure, isZero]
+  by_cases h1 : nOnsetMidi ref = 0
+  · simp [h1]
+  by_cases h2 : nOnsetMidi est = 0
+  · simp [h1, h2]
+  have hz : (nOnsetMidi ref == 0 || nOnsetMidi est == 0) = false := by simp [h1, h2]
+  simp only [h1, h2, hz, decide_false, Bool.false_eq_true, if_false]
+  rw [raw_eq, raw_eq, fillOpt_raw rawPat rawPat ref est _ (fun p q => occCell thres m p q)]
+  · unfold occMatrix
+    cases (List.mapM (fun x => List.mapM (fun y => occCell thres m x y) est) ref) with
+    | error e => rfl
+    | ok O =>
+      simp only [Except.map]
+      by_cases hr : (relIdx O).length = 0
+      · have : (relIdx O).isEmpty = true := by simpa using hr
+        simp [hr, this]
+      · have : (relIdx O).isEmpty = false := by
+          cases h : relIdx O with
+          | nil => simp [h] at hr
+          | cons a l => rfl
+        simp only [hr, this, decide_false, Bool.false_eq_true, if_false, plane0, plane1]
+        have e0 := ix_plane ref.length est.length O (fun c => c.1) (relIdx O)
+        have e1 := ix_plane ref.length est.length O (fun c => c.2) (relIdx O)
+        have m0 := model_gather O (fun c => c.1) (relIdx O)
+        have m1 := model_gather O (fun c => c.2) (relIdx O)
+        simp only [bind, Except.bind, pure, Except.pure] at e0 e1 m0 m1
+        rw [e0, e1, m0, m1]
+        cases gathered O (relIdx O) with
+        | error e => rfl
+        | ok L =>
+          simp only []
+          rw [← colMaxMean_mat (relIdx O).length (relIdx O).length, ← rowMaxMean_mat (relIdx O).length (relIdx O).length]
+          simp only [bind, Except.bind, pure, Except.pure]
+          cases maxAxis0 ⟨(relIdx O).length, (relIdx O).length, L.map fun r => r.map fun c => c.1⟩ with
+          | error e => rfl
+          | ok v =>
+            cases h : npMean v with
+            | error e => simp [h]
+            | ok p =>
+              simp only [h]
+              cases maxAxis1 ⟨(relIdx O).length, (relIdx O).length, L.map fun r => r.map fun c => c.2⟩ with
+              | error e => rfl
+              | ok w => cases h' : npMean w <;> simp [h']
+  · intro p q
+    apply occ_cell_eq_model thres m p q
+    intro s mx
+    by_cases hle : thres ≤ mx
+    · simp only [hle, ge_iff_le, decide_true, if_true]
+      exact prf_tail' p.length q.length s fun a b => pure (some (a, b))
+    · simp only [hle, ge_iff_le, decide_false, Bool.false_eq_true, if_false]
+      rfl
+
+/-! ## inputs that are not point lists: `validate`'s `ValueError`, from every metric -/
+
+theorem map_eq_self {α : Type} (f : α → α) (l : List α) (h : ∀ a ∈ l, f a = a) : l.map f = l := by
+  induction l with
+  | nil => rfl
+  | cons x xs ih =>
+    rw [List.map_cons, h x (by simp), ih (fun a ha => h a (by simp [ha]))]
+
+/-- every nested list the validator accepts is the image of a model input … -/
+theorem valid_is_raw (r : PyPat.Pats) (h : Mir.C14.ValidPatterns r) : ∃ x : Pattern.Pats, r = raw x := by
+  refine ⟨r.map fun pat => pat.map fun occ => occ.map fun om => (om.getD 0 0, om.getD 1 0), ?_⟩
+  unfold raw
+  simp only [List.map_map]
+  symm
+  apply map_eq_self
+  intro pat hp
+  simp only [Function.comp, List.map_map]
+  apply map_eq_self
+  intro occ ho
+  simp only [Function.comp, List.map_map]
+  apply map_eq_self
+  intro om hom
+  have := (h pat hp).2 occ ho om hom
+  match om, this with
+  | [a, b], _ => rfl
+
+/-- … and on everything else each translated metric raises `ValueError` (its first statement) -/
+theorem gen_metrics_malformed (r e : PyPat.Pats)
+    (h : ¬ Mir.C14.ValidPatterns r ∨ ¬ Mir.C14.ValidPatterns e) (tol thres : Rat) (m : String) (n : Int) :
+    Gen.pattern.standard_FPR r e tol = .error .valueError ∧
+    Gen.pattern.establishment_FPR r e m = .error .valueError ∧
+    Gen.pattern.occurrence_FPR r e thres m = .error .valueError ∧
+    Gen.pattern.three_layer_FPR r e = .error .valueError ∧
+    Gen.pattern.first_n_three_layer_P r e n = .error .valueError ∧
+    Gen.pattern.first_n_target_proportion_R r e n = .error .valueError := by
+  have hv : GenV.pattern.validate r e = .error .valueError := by
+    rw [Mir.C14.GenVal.pattern_validate_eq_model]; exact Mir.C14.pattern_validate_rejects h
+  refine ⟨?_, ?_, ?_, ?_, ?_, ?_⟩
+  · unfold Gen.pattern.standard_FPR; rw [hv]; rfl
+  · unfold Gen.pattern.establishment_FPR; rw [hv]; rfl
+  · unfold Gen.pattern.occurrence_FPR; rw [hv]; rfl
+  · unfold Gen.pattern.three_layer_FPR; rw [hv]; rfl
+  · unfold Gen.pattern.first_n_three_layer_P; rw [hv]; rfl
+  · unfold Gen.pattern.first_n_target_proportion_R; rw [hv]; rfl
+
+/-! ## defaults of the translated signatures -/
+
+theorem gen_defaults :
+    Gen.pattern.standard_FPR.default_tol = defaultTol ∧
+    Gen.pattern.occurrence_FPR.default_thres = defaultThres ∧
+    Gen.pattern.establishment_FPR.default_similarity_metric = cardName ∧
+    Gen.pattern.occurrence_FPR.default_similarity_metric = cardName ∧
+    Gen.pattern._compute_score_matrix.default_similarity_metric = cardName ∧
+    Gen.pattern.first_n_three_layer_P.default_n = defaultN ∧
+    Gen.pattern.first_n_target_proportion_R.default_n = defaultN := by
+  refine ⟨by decide +kernel, by decide +kernel, rfl, rfl, rfl, rfl, rfl⟩
+
+/-! ## the C04 / C01 headline statements, on the translated definitions -/
+
+open Mir.C04.Pattern Mir.C01.Pattern in
+/-- C04: the translated `establishment_FPR` is the documented establishment matrix reduction -/
+theorem gen_establishment_spec (ref est : Pattern.Pats) :
+    Gen.pattern.establishment_FPR (raw ref) (raw est) cardName =
+      if (ref ++ est).any List.isEmpty then .error .valueError
+      else if isZero ref est then .ok (0, 0, 0)
+      else if anyEmptyOcc ref && anyEmptyOcc est then .error .zeroDivision
+      else .ok (Spec.establishment ref est) := by
+  rw [establishment_FPR_eq_model]; exact Mir.C04.Pattern.establishment_spec ref est
+
+theorem gen_occurrence_spec (ref est : Pattern.Pats) (thres : Rat) :
+    Gen.pattern.occurrence_FPR (raw ref) (raw est) thres cardName =
+      if (ref ++ est).any List.isEmpty then .error .valueError
+      else if isZero ref est then .ok (0, 0, 0)
+      else if anyEmptyOcc ref && anyEmptyOcc est then .error .zeroDivision
+      else .ok (Spec.occurrence thres ref est) := by
+  rw [occurrence_FPR_eq_model]; exact Mir.C04.Pattern.occurrence_spec ref est thres
+
+/-- C04: three layers; an empty occurrence on EITHER side is a `ZeroDivisionError` -/
+theorem gen_three_layer_spec (ref est : Pattern.Pats) :
+    Gen.pattern.three_layer_FPR (raw ref) (raw est) =
+      if (ref ++ est).any List.isEmpty then .error .valueError
+      else if isZero ref est then .ok (0, 0, 0)
+      else if anyEmptyOcc ref || anyEmptyOcc est then .error .zeroDivision
+      else .ok (Spec.threeLayer ref est) := by
+  rw [three_layer_FPR_eq_model]; exact Mir.C04.Pattern.three_layer_spec ref est
+
+/-- C04: `k` translation-equivalent reference prototypes, P = k / |est|, R = k / |ref| (strict `<` against `tol`) -/
+theorem gen_standard_spec (ref est : Pattern.Pats) (tol : Rat) :
+    Gen.pattern.standard_FPR (raw ref) (raw est) tol =
+      if (ref ++ est).any List.isEmpty then .error .valueError
+      else if isZero ref est then .ok (0, 0, 0)
+      else if anyEmptyProto ref && anyEmptyProto est then .error .valueError
+      else .ok (Spec.standard tol ref est) := by
+  rw [standard_FPR_eq_model]; exact Mir.C04.Pattern.standard_spec ref est tol
+
+theorem gen_first_n_spec (ref est : Pattern.Pats) (n : Int) :
+    Gen.pattern.first_n_three_layer_P (raw ref) (raw est) n =
+      (if (ref ++ est).any List.isEmpty then .error .valueError
+       else if isZero ref est then .ok 0
+       else (Gen.pattern.three_layer_FPR (raw ref) (raw (firstN est n))).map fun t => t.2.1) ∧
+    Gen.pattern.first_n_target_proportion_R (raw ref) (raw est) n =
+      (if (ref ++ est).any List.isEmpty then .error .valueError
+       else if isZero ref est then .ok 0
+       else (Gen.pattern.establishment_FPR (raw ref) (raw (firstN est n)) cardName).map fun t => t.2.2) := by
+  rw [first_n_three_layer_P_eq_model, first_n_target_proportion_R_eq_model, three_layer_FPR_eq_model,
+    establishment_FPR_eq_model]
+  exact ⟨Mir.C04.Pattern.first_n_three_layer_spec ref est n, Mir.C04.Pattern.first_n_target_proportion_spec ref est n⟩
+
+/-- C01: whenever they return, the translated establishment / occurrence / three-layer scores are in [0, 1] -/
+theorem gen_matrix_metrics_range (ref est : Pattern.Pats) (thres : Rat) (t : Rat × Rat × Rat)
+    (h : Gen.pattern.establishment_FPR (raw ref) (raw est) cardName = .ok t ∨
+         Gen.pattern.occurrence_FPR (raw ref) (raw est) thres cardName = .ok t ∨
+         Gen.pattern.three_layer_FPR (raw ref) (raw est) = .ok t) : Mir.Pattern.In01 t := by
+  rcases h with h | h | h
+  · rw [establishment_FPR_eq_model] at h; exact Mir.C01.Pattern.establishment_range ref est t h
+  · rw [occurrence_FPR_eq_model] at h; exact Mir.C01.Pattern.occurrence_range ref est thres t h
+  · rw [three_layer_FPR_eq_model] at h; exact Mir.C01.Pattern.three_layer_range ref est t h
+
+/-- C01, the recorded finding mirrored: the translated `standard_FPR` returns precision 2 (F = 4/3) for two
+    translation-equivalent references against one estimate (`k` counts references, the divisor is `nQ`) … -/
+theorem gen_standard_precision_exceeds_one :
+    Gen.pattern.standard_FPR (raw Mir.C01.Pattern.witnessRef) (raw Mir.C01.Pattern.witnessEst)
+      Gen.pattern.standard_FPR.default_tol = .ok (4/3, 2, 1) := by
+  rw [standard_FPR_eq_model]; exact Mir.C01.Pattern.standard_witness
+
+/-- … what holds on every input: recall in [0, 1], `P ≤ |ref| / |est|`, and all three in [0, 1] when `nP ≤ nQ` -/
+theorem gen_standard_range (ref est : Pattern.Pats) (tol : Rat) (t : Rat × Rat × Rat)
+    (h : Gen.pattern.standard_FPR (raw ref) (raw est) tol = .ok t) :
+    (0 ≤ t.2.2 ∧ t.2.2 ≤ 1) ∧ 0 ≤ t.2.1 ∧ t.2.1 ≤ (ref.length : Rat) / (est.length : Rat) ∧
+      (ref.length ≤ est.length → Mir.Pattern.In01 t) := by
+  rw [standard_FPR_eq_model] at h
+  have a := Mir.C01.Pattern.standard_recall_range ref est tol t h
+  exact ⟨a.1, a.2.1, Mir.C01.Pattern.standard_precision_bound ref est tol t h,
+    fun hl => Mir.C01.Pattern.standard_precision_partial ref est tol t hl h⟩
+
+/-! non-vacuity -/
+example : Gen.pattern.establishment_FPR (raw Mir.C01.Pattern.witnessRef) (raw Mir.C01.Pattern.witnessEst) cardName
+    = .ok (2/3, 1, 1/2) := by rw [establishment_FPR_eq_model]; decide +kernel
+example : Gen.pattern.three_layer_FPR [[[[0, 60]], []]] [[[[0, 60]]]] = .error .zeroDivision := by
+  have := three_layer_FPR_eq_model [[[(0, 60)], []]] [[[(0, 60)]]]
+  simp only [raw, List.map] at this
+  rw [this]; decide +kernel
+example : Gen.pattern.standard_FPR [[[[0, 60, 1]]]] [[[[0, 60]]]] (1/2) = .error .valueError :=
+  (gen_metrics_malformed _ _ (Or.inl (by
+    intro h; have := (h _ (List.mem_singleton.2 rfl)).2 _ (List.mem_singleton.2 rfl) _ (List.mem_singleton.2 rfl)
+    simp at this)) _ 0 "" 0).1
+
 end Mir.C04.GenPattern
